@@ -63,6 +63,47 @@ for label, make in [('HtmlRenderer', lambda: HtmlRenderer()), ('HtmlRenderer(pro
         'charref_is_stdlib': html._charref is __import__('mistletoe.span_tokenizer', fromlist=['x'])._stdlib_charref,
         'root_node_none': token_mod._root_node is None, 'code_matches_empty': core_tokens._code_matches == [],
         'parse_setext': block_token.Paragraph.parse_setext}
+# --- residue: module-level state of the parser modules before / after a complete use of each renderer
+import types as _types
+PROBE_DOC = ('Title\n=====\n\ntext\n<div>\nmore\n</div>\n\npara\n# h #\n\n> quote\n> - item\n\n```py\ncode\n```\n\n'
+             '| a | b |\n|---|---|\n| `c` | *d* |\n\n[k]: /u "t"\n\n[k] <x@y.z> &amp; $m$ [[a|b]]\n\n1. one\n\n   two\n')
+SCRATCH = {('mistletoe.block_token', 'Heading.level'), ('mistletoe.block_token', 'Heading.content'),
+           ('mistletoe.block_token', 'Heading.closing_sequence'), ('mistletoe.block_token', 'CodeFence._open_info'),
+           ('mistletoe.block_token', 'HtmlBlock._end_cond')}
+def snapshot():
+    snap = {}
+    import mistletoe.span_tokenizer as stz, mistletoe.block_tokenizer as btz
+    for mod in (block_token, span_token, core_tokens, token_mod, stz, btz):
+        for k, v in vars(mod).items():
+            if k.startswith('__') or isinstance(v, (_types.ModuleType, _types.FunctionType, type)) or callable(v):
+                continue
+            if isinstance(v, (set, frozenset)) and len(v) > 100:
+                continue
+            snap[(mod.__name__, k)] = repr([getattr(x, '__name__', x) for x in v] if isinstance(v, list) else v)[:400]
+        for k, v in vars(mod).items():
+            if isinstance(v, type) and v.__module__ == mod.__name__:
+                for a, av in vars(v).items():
+                    if a.startswith('__') or callable(av) or isinstance(av, (classmethod, staticmethod, property)) or hasattr(av, 'pattern'):
+                        continue
+                    snap[(mod.__name__, k + '.' + a)] = repr(av)[:200]
+    snap[('html', '_charref')] = repr(html._charref.pattern)[:80]
+    return snap
+out['residue'] = {}
+for label, make in [('HtmlRenderer', lambda: HtmlRenderer()), ('MarkdownRenderer', lambda: MarkdownRenderer()),
+                    ('LaTeXRenderer', lambda: LaTeXRenderer()), ('AstRenderer', lambda: AstRenderer()),
+                    ('JiraRenderer', lambda: JiraRenderer()), ('XWiki20Renderer', lambda: XWiki20Renderer()),
+                    ('MathJaxRenderer', lambda: MathJaxRenderer()), ('GithubWikiRenderer', lambda: GithubWikiRenderer())]:
+    before = snapshot()
+    try:
+        with make() as r:
+            r.render(mistletoe.Document(PROBE_DOC))
+    except Exception as e:
+        out['residue'][label] = {'error': repr(e)}
+        continue
+    after = snapshot()
+    diff = {'%s:%s' % k: [before.get(k), after.get(k)] for k in set(before) | set(after)
+            if before.get(k) != after.get(k) and k not in SCRATCH}
+    out['residue'][label] = diff
 print(json.dumps(out))
 '''
 
@@ -122,6 +163,13 @@ def class_lemmas(repo):
         res.append(mk('exit-resets:%s' % label, 'proved' if ok else 'refuted', ms, ['C11', 'C16'], fn=label,
                       text='after `with R(): pass` both token lists are exactly the __all__ defaults and the parser globals are in their initial state',
                       model=None if ok else d, native=None if ok else {'reproduced': True, 'state': d}))
+    # --- C11 residue: no module-level parser state differs before/after a complete renderer use
+    for label, diff in facts.get('residue', {}).items():
+        ok = not diff
+        res.append(mk('residue:%s' % label, 'proved' if ok else 'refuted', ms, ['C11'], fn=label,
+                      text='every module-level value and class attribute of the parser modules (typestate-protected scratch '
+                           'fields aside) is the same before and after `with R() as r: r.render(Document(probe))`',
+                      model=None if ok else diff, native=None if ok else {'reproduced': True, 'residue': diff}))
     return {'results': res, 'sha': {},
             'assumptions': ['class facts are read from the imported working tree (module top level executed); `with R(): pass` is executed once per renderer']}
 
